@@ -32,6 +32,7 @@ type c11Case struct {
 	At      int    `json:"at"`
 	NFiles  int    `json:"nfiles"`
 	Destroy bool   `json:"destroy"`
+	Frozen  bool   `json:"frozen"`
 	Rep     int    `json:"rep"`
 }
 
@@ -182,12 +183,20 @@ func c11One(probe, root string, c c11Case) c11Obs {
 			}
 		case "ping":
 			run = func(context.Context) opResult { return errRes(s.env.Ping()) }
+		case "reset":
+			run = func(context.Context) opResult { return errRes(s.env.Reset()) }
+		case "delete":
+			run = func(context.Context) opResult { return errRes(s.env.Delete("/w/nothing")) }
 		default:
 			run = func(ctx context.Context) opResult { return classify(s.env.Execve(ctx, p)) }
 		}
 	default:
 		o.Setup = "unknown runner"
 		return o
+	}
+	if c.Frozen && sess != nil {
+		// stop the container init: whatever is called now stays in flight until Destroy
+		syscall.Kill(sess.initPid, syscall.SIGSTOP)
 	}
 	// the action at the chosen instant
 	if c.At >= 0 {
